@@ -94,6 +94,13 @@ func foreignEntries(spec ForeignSpec) []fentry {
 			n += strings.Repeat("x", 101-len(n))
 		case "p260":
 			n += strings.Repeat("y", 90-len(n))
+		case "dot":
+			// hidden files and directories, what `tar -c .` in a home or project directory yields (.f0, ..d1)
+			if base == "d" {
+				n = ".." + n
+			} else {
+				n = "." + n
+			}
 		}
 		return n
 	}
